@@ -38,10 +38,19 @@ var extOffers = []struct {
 }
 
 func genC15(r *PRNG, tier string) *Scenario {
-	switch r.Intn(3) {
+	switch r.Intn(4) {
 	case 0:
 		scn := genPair(r, tier, "C15", pairOpts{})
 		scn.Class = "pair-four-settings"
+		return scn
+	case 3:
+		// the application supplies the offer itself (the RFC spelling of the header name is not
+		// a canonical MIME key, so the Dialer passes it through) while Dialer.EnableCompression is off
+		scn := genPair(r, tier, "C15", pairOpts{})
+		scn.Class = "pair-four-settings"
+		cl := scn.Links[0].Client
+		cl.Compression = false
+		cl.ReqHeader = map[string][]string{"Sec-WebSocket-Extensions": {"permessage-deflate; server_no_context_takeover; client_no_context_takeover"}}
 		return scn
 	case 1:
 		return genC15Byz(r, true)
@@ -147,9 +156,10 @@ func oracleC15(run *Run) {
 		}
 		head := s.Net.Tap()[:headLen(s)]
 		pmd, both := announced(head)
-		want := c.Cfg.Compression && s.Cfg.Compression
+		offered := c.Cfg.Compression || len(c.Cfg.ReqHeader["Sec-WebSocket-Extensions"]) > 0
+		want := offered && s.Cfg.Compression
 		if pmd != want || (pmd && !both) {
-			run.fail("C15", "announcement", fmt.Sprintf("client=%v,server=%v", c.Cfg.Compression, s.Cfg.Compression), "Dialer.EnableCompression=%v Upgrader.EnableCompression=%v but the 101 announces permessage-deflate=%v (both parameters=%v)", c.Cfg.Compression, s.Cfg.Compression, pmd, both)
+			run.fail("C15", "announcement", fmt.Sprintf("offered=%v,server=%v", offered, s.Cfg.Compression), "client offered=%v (Dialer.EnableCompression=%v) Upgrader.EnableCompression=%v but the 101 announces permessage-deflate=%v (both parameters=%v)", offered, c.Cfg.Compression, s.Cfg.Compression, pmd, both)
 		}
 		for _, e := range []*RealEnd{c, s} {
 			if hasRSV1(wsTap(e), !e.IsServer) && !(pmd && both) {
